@@ -4,8 +4,8 @@ use crate::kinematic_traits::{
     Joints, Kinematics, Solutions, ENV_START_IDX, J1, J5, J6, J_BASE, J_TOOL,
 };
 
-use nalgebra::Isometry3;
-use parry3d::shape::TriMesh;
+use nalgebra::{Isometry3, Translation3};
+use parry3d::shape::{Cuboid, TriMesh};
 use rayon::prelude::{IntoParallelRefIterator, ParallelIterator};
 use std::collections::{HashMap, HashSet};
 use parry3d::bounding_volume::{Aabb, BoundingVolume};
@@ -82,10 +82,13 @@ impl CollisionTask<'_> {
             // as is (it probably has a complex shape and would result in many false positives
             // if similarly simplified            
             let am_aaabb = sm_shape.local_aabb().loosened(r_min);
-            let sm_abb_mesh = build_trimesh_from_aabb(am_aaabb);
+            // The enlarged box must be solid: a hollow box mesh would miss a body that lies
+            // entirely inside it (closer than r_min, yet not touching the box surface).
+            let sm_box = Cuboid::new(am_aaabb.half_extents());
+            let sm_box_transform = sm_transform * Translation3::from(am_aaabb.center().coords);
             if !parry3d::query::intersection_test(
-                sm_transform,
-                &sm_abb_mesh,
+                &sm_box_transform,
+                &sm_box,
                 bg_transform,
                 bg_shape,
             ).expect(SUPPORTED) {
@@ -111,6 +114,8 @@ impl CollisionTask<'_> {
 }
 
 /// Parry does not support AABB as a "proper" shape so we rewrap it as mesh
+/// (hollow; no longer used by the distance pre-filter, which needs a solid box)
+#[allow(dead_code)]
 fn build_trimesh_from_aabb(aabb: Aabb) -> TriMesh {
     let min: Point<f32> = aabb.mins;
     let max: Point<f32> = aabb.maxs;
